@@ -12,6 +12,8 @@
    Registered proxy commands of the fixture:
      vopen            no requirement          valias   alias of vopen
      vperm            requires "verif.use"    vargs <word>   one word argument
+     verr             its handler runs and then returns an ordinary error: still executed by the
+                      proxy (once), so it must not reach the backend as well
      VMix             registered under a mixed-case literal; typed exactly so it names that
                       command, typed in another case ("vmix") it is one of the open cases below
    Everything else is unknown to the proxy.
@@ -38,10 +40,10 @@ Fams == {"legacy", "keyed", "session", "unsigned"}
 \* a line is the command text after the one slash that marks a command; "/vopen" and "//vnone x" are
 \* lines that themselves begin with slashes (typed "//vopen", "///vnone x", e.g. WorldEdit's "//wand"):
 \* they name no proxy command, even if the text after the extra slashes does
-Lines == {"vopen", "vperm", "valias", "vargs w", "vnone", "vnone a b", "VOPEN", "vopen ", "/vopen", "//vnone x", "VMix", "vmix"}
+Lines == {"vopen", "vperm", "valias", "vargs w", "vnone", "vnone a b", "VOPEN", "vopen ", "/vopen", "//vnone x", "VMix", "vmix", "verr"}
 Targets == {"", "vopen", "vperm", "vargs z", "vother x"}
 
-Registered(line) == line \in {"vopen", "vperm", "valias", "vargs w", "vargs z", "VMix"}
+Registered(line) == line \in {"vopen", "vperm", "valias", "vargs w", "vargs z", "VMix", "verr"}
 NeedsPerm(line) == line = "vperm"
 Ambiguous(line) == line \in {"VOPEN", "vopen ", "vmix"}
 \* the proxy command (handler) a registered line runs
@@ -49,6 +51,7 @@ Handler(line) == CASE line \in {"vopen", "valias"} -> "vopen"
                    [] line = "vperm" -> "vperm"
                    [] line \in {"vargs w", "vargs z"} -> "vargs"
                    [] line = "VMix" -> "vmix"
+                   [] line = "verr" -> "verr"
                    [] OTHER -> ""
 
 Steps == [line : Lines, to : Targets, deny : BOOLEAN, fwd : BOOLEAN, signed : BOOLEAN]
